@@ -310,6 +310,30 @@ fn check_store(tag: &str, s: &Store, m: &Model, when: &str) -> Verdict {
     Ok(())
 }
 
+/// `get_term` is a safe function: called with an index this store never issued (taken from a
+/// bigger clone, kept across a mem::take, or simply out of range) it may panic, it must not
+/// read out of bounds. The panic is caught; an abort (debug precondition check of an unchecked
+/// access) or a poisoned read shows up as process death / garbage.
+fn probe_foreign_indexes<I: Index>(ti: &SimpleTermIndex<I>, extra: usize) -> u32 {
+    let len = ti.len();
+    let mut panics = 0;
+    for k in [len, len + 1, len + extra, I::MAX.into_usize().saturating_sub(1)] {
+        if k >= I::MAX.into_usize() {
+            continue;
+        }
+        let idx = I::from_usize(k);
+        let r = std::panic::catch_unwind(std::panic::AssertUnwindSafe(|| {
+            let t = ti.get_term(idx);
+            // touch the term the way a caller would
+            let _ = MTerm::from_term(t);
+        }));
+        if r.is_err() {
+            panics += 1;
+        }
+    }
+    panics
+}
+
 fn idx_from<I: Index>(_ti: &SimpleTermIndex<I>, k: usize) -> I {
     I::from_usize(k)
 }
@@ -454,7 +478,7 @@ fn run_c10_body(ctx: &mut Ctx) -> Verdict {
             next_tag += 1;
         }
         let which = ctx.tape.below(pool.len());
-        let opk = ctx.tape.draw(16);
+        let opk = ctx.tape.draw(18);
         let opname: &'static str;
         match opk {
             0..=4 => {
@@ -537,6 +561,29 @@ fn run_c10_body(ctx: &mut Ctx) -> Verdict {
                     store_insert(s, m, &q)?;
                 }
             }
+            15 => {
+                opname = "get_term_with_foreign_index";
+                simcore::driver::set_death_note("C10: get_term called with an index this store never issued");
+                let extra = ctx.tape.range(2, 40);
+                let (s, _, _) = &pool[which];
+                let panics = match s {
+                    Store::FastD(d) => probe_foreign_indexes(d.verif_terms(), extra),
+                    Store::LightD(d) => probe_foreign_indexes(d.verif_terms(), extra),
+                    Store::SmallFastD(d) => probe_foreign_indexes(d.verif_terms(), extra),
+                    Store::SmallLightD(d) => probe_foreign_indexes(d.verif_terms(), extra),
+                    Store::TinyFastD(d) => probe_foreign_indexes(d.verif_terms(), extra),
+                    Store::TinyLightD(d) => probe_foreign_indexes(d.verif_terms(), extra),
+                    Store::FastG(g) => probe_foreign_indexes(g.verif_terms(), extra),
+                    Store::LightG(g) => probe_foreign_indexes(g.verif_terms(), extra),
+                    Store::SmallFastG(g) => probe_foreign_indexes(g.verif_terms(), extra),
+                    Store::SmallLightG(g) => probe_foreign_indexes(g.verif_terms(), extra),
+                    Store::TinyFastG(g) => probe_foreign_indexes(g.verif_terms(), extra),
+                    Store::Index32(i) => probe_foreign_indexes(i, extra),
+                    Store::Index16(i) => probe_foreign_indexes(i, extra),
+                };
+                ctx.probe_n("get_term_foreign_index_panicked_(allowed)", u64::from(panics));
+                simcore::driver::set_death_note("");
+            }
             _ => {
                 opname = "clone_then_drop_original";
                 if pool.len() < 5 {
@@ -592,5 +639,6 @@ pub fn scenario() -> Scenario {
         run_timeout_s: 60,
         thorough_extra: None,
         warmup: None,
+        enumerated: None,
     }
 }
